@@ -34,7 +34,9 @@ func init() {
 				var mine []*sub
 				for i := 0; i < nops; i++ {
 					q := qs[r.Intn(len(qs))]
-					switch r.Intn(23) {
+					switch r.Intn(24) {
+					case 23:
+						e.w.Metrics().Reset()
 					case 0, 1, 2:
 						mine = append(mine, e.add(q, r.Intn(3), randOutcome(r), false, ""))
 					case 3:
